@@ -42,6 +42,11 @@ Example C20_rejects_camel_case :
   /\ binds services messages ("tx", "CancelAuction", "cancel-auction [auction-id]", false, [("auction_id", false, false)]) = true.
 Proof. vm_compute. repeat split; reflexivity. Qed.
 
+(* a `varargs` argument on a single-valued field is refused (autocli itself accepts it and keeps only the last word) *)
+Example C20_rejects_varargs_on_scalar :
+  binds services messages ("tx", "CancelAuction", "cancel-auction [auction-id]...", false, [("auction_id", false, true)]) = false.
+Proof. vm_compute. reflexivity. Qed.
+
 (* every (amino.encoding) option on a field of the module's messages is one the answer renderer of the CLI accepts
    for that field: "legacy_coins" only on repeated Coin fields (it was on seven single Coin fields - D19 - and no
    answer containing an auction, a bid or a vesting queue could be displayed) *)
